@@ -4,6 +4,7 @@ pub mod c04;
 pub mod c10;
 pub mod c06;
 pub mod c07;
+pub mod c09;
 pub mod c11;
 pub mod c12;
 pub mod c13;
@@ -46,6 +47,8 @@ pub fn monitor_for(property: &str) -> Option<Monitor> {
         "C01" => Some(c01::run),
         "C03" => Some(c03::run),
         "C04" => Some(c04::run),
+        "C09" => Some(c09::run),
+        "C14" => Some(c09::run_c14),
         "C10" => Some(c10::run),
         "C06" => Some(c06::run),
         "C07" => Some(c07::run),
